@@ -28,7 +28,7 @@ def shards(tier, seed):
 
 def floors(tier):
     f = {"programs:A": 300, "programs:B": 150, "programs:no_MR": 50, "programs:no_ee_cnot": 50, "programs:no_one_qubit_gate": 10,
-         "programs:with_wrappers_and_identities": 100}
+         "programs:with_wrappers_and_identities": 100, "programs:re_evaluated_after_removal": 200, "programs:A_with_Z_measurement": 40}
     for m in METRICS:
         f["metric:" + m] = 300
     return f
@@ -44,6 +44,8 @@ def gen_A(rng):
     circ = CircuitDAG(n_emitter=n_e, n_photon=n_p, n_classical=1)
     L = int(rng.integers(0, 16))
     alphabet = SOLVER_ALPHABET if rng.random() < 0.8 else [["CNOT"], ["MR", "CNOT"], ["H", "I"], ["W"]][int(rng.integers(4))]
+    if rng.random() < 0.3:
+        alphabet = list(alphabet) + ["MZ"]      # a Z measurement is certainly not a unitary gate (the measurement count is then not judged)
     for _ in range(L):
         k = alphabet[int(rng.integers(len(alphabet)))]
         em = [("e", i) for i in range(n_e)]
@@ -59,6 +61,8 @@ def gen_A(rng):
             if not ph:
                 continue
             op = prog.new_op("MR", [em[int(rng.integers(len(em)))], ph[int(rng.integers(len(ph)))]], c=0)
+        elif k == "MZ":
+            op = prog.new_op("MZ", [(em + ph)[int(rng.integers(n_e + n_p))]], c=0)
         elif k == "W":
             pool = programs.ONEQ
             op = prog.new_op("W", [(em + ph)[int(rng.integers(n_e + n_p))]], gates=[pool[int(rng.integers(7))] for _ in range(int(rng.integers(1, 4)))])
@@ -87,8 +91,15 @@ def check_program(pseed, ctx):
         prog, circ = gen_A(rng)
     else:
         prog, circ = programs.random_program(rng, int(rng.integers(0, 3)) , int(rng.integers(1, 4)), int(rng.integers(1, 3)), int(rng.integers(0, 14)), adversarial=False)
+    case = {"pseed": pseed, "class": klass, "program": prog.text(), "registers": [prog.n_e, prog.n_p, prog.n_c]}
+    check_metrics(prog, circ, klass, rng, ctx, case, stage=0)
+
+
+def check_metrics(prog, circ, klass, rng, ctx, case, stage):
+    import graphiq.metrics as gm
     kinds = [o.kind for o in prog.live_ops()]
-    ctx.count("programs:" + klass)
+    if stage == 0:
+        ctx.count("programs:" + klass)
     if "MR" not in kinds:
         ctx.count("programs:no_MR")
     if costs.emitter_cnot_count(prog) == 0:
@@ -98,12 +109,14 @@ def check_program(pseed, ctx):
     if "W" in kinds and "I" in kinds:
         ctx.count("programs:with_wrappers_and_identities")
     small = circ.dag.number_of_nodes() <= 26
-    case = {"pseed": pseed, "class": klass, "program": prog.text(), "registers": [prog.n_e, prog.n_p, prog.n_c]}
-    before = prog.text(), [id(o.obj) for o in prog.ops]
     expected = {"CircuitDepth": costs.depth(prog), "CircuitEmitterCount": prog.n_e, "CircuitCnotCount": costs.emitter_cnot_count(prog)}
     if klass == "A":
-        expected.update({"CircuitUnitaryCount": costs.unitary_count(prog), "CircuitMeasureCount": costs.measure_count(prog),
+        expected.update({"CircuitUnitaryCount": costs.unitary_count(prog),
                          "CircuitMaxEmitDepth": costs.max_emitter_depth(prog), "CircuitMaxEmitResetDepth": costs.max_emitter_reset_depth(prog)})
+        if "MZ" not in kinds:
+            expected["CircuitMeasureCount"] = costs.measure_count(prog)
+        else:
+            ctx.count("programs:A_with_Z_measurement")
         if small:
             expected["CircuitMaxEmitEffDepth"] = costs.max_emitter_eff_depth(prog)
     pen = lambda x: 3 * x + 1
@@ -113,7 +126,7 @@ def check_program(pseed, ctx):
     for name, want in expected.items():
         for mode in ("default", "explicit"):
             ctx.count("metric:" + name)
-            ctx.case((tuple(prog.text()), name, mode), len(kinds) >= 3,
+            ctx.case((tuple(o.text() for o in prog.live_ops()), name, mode, stage), len(kinds) >= 3,
                      {"program": prog.text(), "metric": name, "expected": want} if ctx.evaluations % 1500 == 0 else None)
             try:
                 met = getattr(gm, name)() if mode == "default" else getattr(gm, name)(**{kw_name[name]: pen})
@@ -129,7 +142,7 @@ def check_program(pseed, ctx):
     # per-register depth
     if small:
         ctx.count("metric:register_depth", 2)
-        ctx.case((tuple(prog.text()), "register_depth"), len(kinds) >= 3)
+        ctx.case((tuple(o.text() for o in prog.live_ops()), "register_depth", stage), len(kinds) >= 3)
         want = costs.register_depth(prog)
         try:
             got = {t: [int(v) for v in circ.register_depth[t]] for t in ("e", "p", "c")}
@@ -149,3 +162,26 @@ def check_program(pseed, ctx):
     probs = dagmon.check(circ, prog, deep=False)
     if probs:
         ctx.violation("metric_modified_the_circuit", case, {"problems": probs[:4]}, key="metric_mutates")
+        return
+    # ---- the same circuit object after edits that only remove operations: every metric must follow the new circuit
+    live = sorted(prog.live_ops(), key=lambda o: o.id)
+    if small and live and stage == 0:
+        edits = []
+        if "I" in kinds and rng.random() < 0.5:
+            circ.remove_identity()
+            prog.spec_remove_identity()
+            edits.append("remove_identity")
+        else:
+            for _ in range(int(rng.integers(1, 3))):
+                live = sorted(prog.live_ops(), key=lambda o: o.id)
+                if not live:
+                    break
+                o = live[int(rng.integers(len(live)))]
+                node = [n for n, d in circ.dag.nodes(data=True) if d["op"] is o.obj]
+                if not node:
+                    break
+                circ.remove_op(node[0])
+                prog.remove(o.id)
+                edits.append("remove " + o.text())
+        ctx.count("programs:re_evaluated_after_removal")
+        check_metrics(prog, circ, klass, rng, ctx, dict(case, after_edits=edits), stage=1)
